@@ -35,3 +35,26 @@ Definition at_peer : option (list (N * Z)) :=
 
 Theorem identity_reuse_diverges : at_undoer = Some [] /\ at_peer = Some [(1%N, 1)].
 Proof. split; vm_compute; reflexivity. Qed.
+
+(* ------------------------------------------------------------------ *)
+(* finding P44 (repaired by e806c2a2) on the ElementRHT model: an undo whose Remove declines to
+   execute on the author (the member it would remove has lost to a concurrent Set) must not put
+   that Remove on the wire.  On a peer that has already purged the loser the Remove has no target:
+   DeleteByCreatedAt fails, and with it the whole change pack. *)
+Definition p44_k2 : N := 2%N.
+Definition p44_mine : ticket := mkT 5 1%N 2%N.      (* the undoer's k2 = 85 *)
+Definition p44_theirs : ticket := mkT 5 2%N 1%N.    (* the peer's concurrent k2 = 96: the later ticket *)
+Definition p44_peer : erht :=
+  rht_set (rht_set empty_erht p44_k2 p44_theirs 96 p44_theirs) p44_k2 p44_mine 85 p44_mine.
+Definition p44_peer_after_gc : option erht := rht_purge p44_peer p44_mine.
+Definition p44_remove (h : erht) : option erht := rht_delete_by_created h p44_mine (mkT 8 1%N 1%N).
+
+Theorem skipped_remove_fails_on_purged_peer :
+  rht_visible p44_peer = [(2%N, 96)] /\
+  (exists h, p44_remove p44_peer = Some h /\ rht_visible h = [(2%N, 96)]) /\
+  (exists h, p44_peer_after_gc = Some h /\ rht_visible h = [(2%N, 96)] /\ p44_remove h = None).
+Proof.
+  split; [vm_compute; reflexivity|]. split.
+  - eexists. split; [vm_compute; reflexivity|vm_compute; reflexivity].
+  - eexists. split; [vm_compute; reflexivity|]. split; vm_compute; reflexivity.
+Qed.
